@@ -108,6 +108,34 @@ def voigt(ctx):
         ok = len(live) == 1 and got is not None and np.shape(got) == (6, 6) and all(got[i, j] == c[i, j] for i in range(6) for j in range(6))
         ctx.ob('VOIGT', loc + name + '.setter', 'setting %s from the getter\'s value restores the same 6x6 matrix (no assertion fails on a symmetric tensor)' % name, ok,
                'raised on %d path(s)' % len([p for p in paths if p.done == 'raise']) if not live else 'stored %s' % (None if got is None else [str(x) for x in np.ravel(got)[:8]],), node=fn)
+    # the symmetry test of the 6x6 setter is relative: the inverse of a compliance and a rotated tensor are symmetric only up to round-off (1e-16 of the entries), whatever
+    # the size of the entries -- a stiffness written in Pa (1e11) is as valid as one in eV/angstrom^3 (1)
+    fn6, _c = _obj(ctx, None).lookup('Cij', setter=True)
+    ctx.need(fn6 is not None, 'Cij setter vanished')
+    R = sp.Rational
+    for tag, scale, eps, want_ok in (('entries of order 1e11 (Pa), asymmetric by 1e-5 absolute = 1e-16 relative', R(10) ** 10, R(1, 100000), True),
+                                     ('entries of order 1, asymmetric by 1e-12', R(1), R(1, 10 ** 12), True),
+                                     ('entries of order 1e11, asymmetric by one part in a thousand', R(10) ** 10, R(10) ** 8, False)):
+        M = np.empty((6, 6), dtype=object)
+        for i in range(6):
+            for j in range(6):
+                M[i, j] = (R(30) if i == j else R(10 + min(i, j) + max(i, j))) * scale + (eps if i > j else 0)
+        obj = _obj(ctx, None)
+        try:
+            live = [q for q in _ev(ctx).run_fn(fn6, [obj, M], {}) if q.done == 'return']
+            acc = len(live) == 1 and obj.attrs.get('_ElasticConstants__c_ij') is not None
+        except WouldRaise:
+            acc = False
+        except Opaque as e:
+            raise AnalysisError('Cij setter (%s): %s' % (tag, e))
+        ctx.ob('VOIGT', loc + 'Cij.setter', 'a 6x6 matrix with %s is %s' % (tag, 'accepted' if want_ok else 'refused as not symmetric'), acc == want_ok, 'accepted' if acc else 'refused', node=fn6, key='cij symmetry ' + tag[:40])
+    # every representation is computed from the stored 6x6 matrix; a caller who edits what a getter returned (cij /= unit) must not edit the tensor
+    from .. import effects
+    summ = effects.class_property_summaries(cls, base={'deepcopy': ('fresh',)})
+    names = ('Cij', 'Sij', 'Cij9', 'Cijkl', 'Sijkl')
+    stale = [n_ for n_ in names if 'self.' + n_ not in summ]
+    ctx.ob('VOIGT', loc + 'Cij', 'the getters of the representations (%s) return new arrays on every path, never the stored matrix' % ', '.join(names), not stale, 'may return the object\'s own storage: %s' % stale,
+           node=ctx.fn(EC, 'ElasticConstants.Cij'), key='getters fresh')
     # the symmetry assertions of the Cijkl setter enumerate the seven images
     fn, _c = _obj(ctx, None).lookup('Cijkl', setter=True)
     asserts = [a for a in ast.walk(fn) if isinstance(a, ast.Assert) and 'isclose' in norm(a.test)]
